@@ -20,6 +20,7 @@ CONFIGS = {      # cell sizes are dyadic so that grid coordinates are exact in b
     'narrow': ((0.0, 0.0, 2.0, 4.0), (1.0, 1.0), 0.0),
     'coarser': ((0.0, 0.0, 4.0, 2.0), (2.0, 5.0), 0.0),     # a cell height larger than the extent: 2 x 1 cells of 2 x 2      # more rows than columns: 2 x 4 unit cells
     'fine': ((0.0, 0.0, 16.0, 16.0), (1.0, 1.0), 0.0),       # scale probes: 16 x 16 unit cells (long segments over > 64 cells, radii of >= 5 units, sparse inventory)
+    'lambert': ((651000.03, 6861000.3, 651040.03, 6861020.3), (10.0, 10.0), 0.0),       # value-kind probes: projected-coordinate magnitudes, origin not representable in binary32
     'default': ((0.0, 0.0, 100.0, 50.0), None, 0.0),        # default resolution: 100 x 50 unit cells; point queries in two corner windows only
 }
 FEAT = 7
@@ -43,6 +44,24 @@ def build_index(cfg, markers=False):
                 b = ENUCoords(si.xmin + (i + 0.6) * si.dX, si.ymin + (j + 0.5) * si.dY, 0)
                 si.addFeature(Track([Obs(a, ObsTime()), Obs(b, ObsTime())]), 1000 + i * si.lsize + j)
     return si
+
+
+# value-kind probes: candidate coordinates (exactly representable in binary32) on both sides of cell borders of the 'lambert' grid
+KIND_XS = [651005.0, 651010.0, 651010.0625, 651020.0, 651030.0, 651030.0625, 651040.0]
+KIND_YS = [6861005.5, 6861010.0, 6861010.5, 6861020.0]
+
+
+def kind_value(pk, v):
+    import numpy as np
+    return {'float': float, 'npfloat64': np.float64, 'npfloat32': np.float32, 'int': lambda u: int(u)}[pk](v)
+
+
+def exact_cell(si, px, py):
+    """the cell containing the point, in exact rational arithmetic on the values actually passed"""
+    from fractions import Fraction as F
+    i = math.floor((F(float(px)) - F(si.xmin)) / F(si.dX))
+    j = math.floor((F(float(py)) - F(si.ymin)) / F(si.dY))
+    return (min(i, si.csize - 1), min(j, si.lsize - 1))
 
 
 def in_cell(gx, gy, i, j, C, L):
@@ -97,6 +116,10 @@ class C08(Check):
             js.append(dict(kind='segq', cfg='fine', nv=2, long=k))
         for c0 in ([(8, 8)] if q else [(8, 8), (4, 8), (0, 0), (15, 12)]):
             js.append(dict(kind='neigh', cfg='fine', sparse=True, cell=list(c0)))
+        for pk in ('float', 'npfloat64', 'npfloat32', 'int'):
+            js.append(dict(kind='pointkind', cfg='lambert', pk=pk))
+        for c0 in ((0, 4) if q else range(6)):
+            js.append(dict(kind='segq', cfg='sq1', nv=2, c0=c0, again=True))      # leftover-state probe: the same Track object queried, moved in place, queried again
         js.append(dict(kind='point', cfg='default', window=0))
         js.append(dict(kind='point', cfg='default', window=1))
         js.sort(key=lambda j: (0 if j['cfg'] in ('fine', 'coarser') else 1, 0 if j['kind'] in ('register', 'segq') else 1))      # scale probes first
@@ -138,7 +161,7 @@ class C08(Check):
         kind = job['kind']
         from tracklib.core import ENUCoords
         try:
-            si = build_index(cfg, markers=self._markers(job))
+            si = build_index(cfg, markers=self._markers(job))      # noqa
         except (Exception, SystemExit) as e:
             ctx.reach()
             ctx.fail('building the index over a collection raised %s' % type(e).__name__)
@@ -168,6 +191,16 @@ class C08(Check):
                                               'every cell crossed by a segment of the feature has the feature registered', chain=False):
                         return
                 return
+            if kind == 'pointkind':
+                ix, iy = eng.choice('ix', len(KIND_XS)), eng.choice('iy', len(KIND_YS))
+                px, py = kind_value(job['pk'], KIND_XS[ix]), kind_value(job['pk'], KIND_YS[iy])
+                got = si.request(ENUCoords(px, py, 0))
+                ctx.reach()
+                hit = [(i, j) for i in range(C) for j in range(L) if si.grid[i][j] is got]
+                want = exact_cell(si, px, py)
+                if hit != [want]:
+                    ctx.fail('a point query with coordinates of another numeric kind does not read the cell that contains the point')
+                return
             if kind == 'point':
                 px, py = self._pt(eng, None, si, 'p')
                 if 'window' in job:      # default resolution: the lower-left and the upper-right (outer border) corner windows of 3 x 3 cells
@@ -190,8 +223,15 @@ class C08(Check):
                 else:
                     pts = [self._pt(eng, None, si, 'q%d' % k) for k in range(job['nv'])]
                     eng.assume(in_cell(gx(pts[0][0]), gy(pts[0][1]), job['c0'] // L, job['c0'] % L, C, L))
-                if job['nv'] == 2:
+                if job['nv'] == 2 and not job.get('again'):
                     got = si.request([ENUCoords(pts[0][0], pts[0][1], 0), ENUCoords(pts[1][0], pts[1][1], 0)])
+                elif job.get('again'):
+                    trq = self._track([(0.25, 0.25), (0.5, 0.75), (0.75, 0.25)][:job['nv']])      # first query: a track inside the first cell
+                    si.request(trq)
+                    for k, (x, y) in enumerate(pts):                                              # the same object, moved in place
+                        trq.getObs(k).position.setX(x)
+                        trq.getObs(k).position.setY(y)
+                    got = si.request(trq)
                 else:
                     got = si.request(self._track(pts))
                 ctx.reach()
@@ -269,6 +309,14 @@ class C08(Check):
                 if not need <= reg:
                     return dict(violation='feature %r on grid %s: crossed cells %r are not registered (registered: %r)' % (pts, cfg, sorted(need - reg), sorted(reg)), outputs=dict(ncells=len(reg)))
                 return dict(violation=None, outputs=dict(ncells=len(reg)))
+            if kind == 'pointkind':
+                px, py = kind_value(job['pk'], KIND_XS[int(inp['ix'])]), kind_value(job['pk'], KIND_YS[int(inp['iy'])])
+                got = si.request(ENUCoords(px, py, 0))
+                hit = [(i, j) for i in range(C) for j in range(L) if si.grid[i][j] is got]
+                want = exact_cell(si, px, py)
+                if hit != [want]:
+                    return dict(violation='point query (%r, %r) given as %s on grid %s read cell %r, the point is in cell %r' % (px, py, job['pk'], cfg, hit, want))
+                return dict(violation=None, outputs={})
             if kind == 'point':
                 px, py = self._pt(None, inp, si, 'p')
                 got = si.request(ENUCoords(px, py, 0))
@@ -278,7 +326,15 @@ class C08(Check):
                 return dict(violation=None, outputs=dict(ci=hit[0][0], cj=hit[0][1]))
             if kind == 'segq':
                 pts = self._long_pts(None, inp, job) if 'long' in job else [self._pt(None, inp, si, 'q%d' % k) for k in range(job['nv'])]
-                got = si.request([ENUCoords(pts[0][0], pts[0][1], 0), ENUCoords(pts[1][0], pts[1][1], 0)]) if job['nv'] == 2 else si.request(self._track(pts))
+                if job.get('again'):
+                    trq = self._track([(0.25, 0.25), (0.5, 0.75), (0.75, 0.25)][:job['nv']])
+                    si.request(trq)
+                    for k, (x, y) in enumerate(pts):
+                        trq.getObs(k).position.setX(x)
+                        trq.getObs(k).position.setY(y)
+                    got = si.request(trq)
+                else:
+                    got = si.request([ENUCoords(pts[0][0], pts[0][1], 0), ENUCoords(pts[1][0], pts[1][1], 0)]) if job['nv'] == 2 else si.request(self._track(pts))
                 need = cells_on(pts)
                 if inp.get('t') is not None:
                     for (xa, ya), (xb, yb) in zip(pts, pts[1:]):
